@@ -22,6 +22,8 @@ type hooks struct {
 	failed   int          // how many faults were actually injected
 	gets     int          // point reads (Get/Has) — the C11 node read counter
 	kinds    map[string]int
+	seq      []string // when non-nil: the kind of every call, in order
+	trace    bool
 	failKind string // kind of the last injected fault
 }
 
@@ -31,6 +33,9 @@ func (h *hooks) call(kind string) error {
 	h.calls++
 	if h.kinds != nil {
 		h.kinds[kind]++
+	}
+	if h.trace {
+		h.seq = append(h.seq, kind)
 	}
 	if h.failAt != nil && h.failAt[h.calls] {
 		h.failed++
